@@ -64,43 +64,51 @@ def readStdKeyword (s : IS) : IS × List Byte :=
   | (pre, rest, acc, some c) => (({ s with pre := pre, rest := rest } : IS).putback c, acc.reverse)
   | (pre, _, acc, none) => ({ s with pre := pre, rest := [], eof := false, fail := true }, acc.reverse)
 
+/-- an error path of `CreateInstance`: `SkipInstance( in, tmpbuf ); return ENTITY_NULL;` -/
+def ciFail (skip : IS → Out LoopRes) (s : IS) (st : Nat) : Out LoopRes :=
+  match skip s with
+  | .ok r => .ok ⟨r.s, 0, 0, st + r.steps⟩
+  | .overflow i k => .overflow i k
+  | .outOfFuel => .outOfFuel
+
+/-- the success path: `SkipInstance( in, tmpbuf ); ReadTokenSeparator( in ); return obj;` -/
+def ciDone (tok skip : IS → Out LoopRes) (s : IS) (st : Nat) : Out LoopRes :=
+  match skip s with
+  | .ok r =>
+    match tok r.s with
+    | .ok r' => .ok ⟨r'.s, 1, 0, st + r.steps + r'.steps⟩
+    | .overflow i k => .overflow i k
+    | .outOfFuel => .outOfFuel
+  | .overflow i k => .overflow i k
+  | .outOfFuel => .outOfFuel
+
+/-- the record after `=`: external mapping (`sub` reads its parts), user-defined (`!`) or keyword -/
+def ciRecord (o : Oracle) (sub : IS → IS) (tok skip : IS → Out LoopRes) (s : IS) (st : Nat) : Out LoopRes :=
+  match s.peek with
+  | (s3, p) =>
+    if p = some chLParen then
+      if o.complexOk (sub s3) then ciDone tok skip (sub s3) st else ciFail skip (sub s3) st
+    else if p = some chBang then
+      ciFail skip (readStdKeyword (s3.get).1).1 (st + (readStdKeyword (s3.get).1).2.length)
+    else if o.known (readStdKeyword s3).2 then ciDone tok skip (readStdKeyword s3).1 (st + (readStdKeyword s3).2.length)
+    else ciFail skip (readStdKeyword s3).1 (st + (readStdKeyword s3).2.length)
+
 /-- `STEPfile::CreateInstance` after the `#`: `sev` = 1 when an instance is returned -/
 def createInstanceSkel (o : Oracle) (sub : IS → IS) (tok skip : IS → Out LoopRes) (s : IS) : Out LoopRes :=
   match tok s with
   | .ok r0 =>
-    let s1 := r0.s.extractInt
-    let fail1 (s : IS) (st : Nat) : Out LoopRes :=
-      match skip s with
-      | .ok r => .ok ⟨r.s, 0, 0, st + r.steps⟩
-      | e => e
-    let done1 (s : IS) (st : Nat) : Out LoopRes :=
-      match skip s with
-      | .ok r =>
-        match tok r.s with
-        | .ok r' => .ok ⟨r'.s, 1, 0, st + r.steps + r'.steps⟩
-        | e => e
-      | e => e
-    if o.dup s1 then fail1 s1 (r0.steps + 1) else
-    match tok s1 with
+    if o.dup r0.s.extractInt then ciFail skip r0.s.extractInt (r0.steps + 1) else
+    match tok r0.s.extractInt with
     | .ok r1 =>
-      match r1.s.get with
-      | (s2, c?) =>
-        if c? ≠ some chEq then fail1 s2 (r0.steps + r1.steps + 2) else
-        match tok s2 with
-        | .ok r2 =>
-          let st := r0.steps + r1.steps + r2.steps + 3
-          let (s3, p) := r2.s.peek
-          if p = some chLParen then
-            let s4 := sub s3
-            if o.complexOk s4 then done1 s4 st else fail1 s4 st
-          else
-            let (s4, user) := if p = some chBang then ((s3.get).1, true) else (s3, false)
-            let (s5, kw) := readStdKeyword s4
-            if user then fail1 s5 (st + kw.length)
-            else if o.known kw then done1 s5 (st + kw.length) else fail1 s5 (st + kw.length)
-        | e => e
-    | e => e
-  | e => e
+      if (r1.s.get).2 ≠ some chEq then ciFail skip (r1.s.get).1 (r0.steps + r1.steps + 2) else
+      match tok (r1.s.get).1 with
+      | .ok r2 => ciRecord o sub tok skip r2.s (r0.steps + r1.steps + r2.steps + 3)
+      | .overflow i k => .overflow i k
+      | .outOfFuel => .outOfFuel
+    | .overflow i k => .overflow i k
+    | .outOfFuel => .outOfFuel
+  | .overflow i k => .overflow i k
+  | .outOfFuel => .outOfFuel
 
 structure DataRes where
   s : IS
